@@ -21,6 +21,11 @@ Every run:
 Harness file format (parsed here):
 
     // @append-to: src/streaming/wal.rs            (required, once)
+    // @debug-assertions: off                      (optional, once; default on.  off = the harnesses of this
+    //                                              file are compiled like the release build that serves clients:
+    //                                              debug_assert!/cfg(debug_assertions) code is absent - the same
+    //                                              drop as normalisation rule N2 of the Verus leg.  Uses its own
+    //                                              dependency cache .cache/kani-target-nodebug)
     #[cfg(kani)]
     mod verif_kani_xyz {
         use super::*;
@@ -70,6 +75,8 @@ def parse_harness_file(path):
     if not mm:
         raise KaniSetupError('%s: no `// @append-to:` line' % path)
     append_to = mm.group(1)
+    dm = re.search(r'^//\s*@debug-assertions:\s*(on|off)\s*$', text, re.M)
+    debug_assertions = (dm.group(1) if dm else 'on')
     mod = re.search(r'^\s*(?:pub\s+)?mod\s+(\w+)', text, re.M)
     modname = mod.group(1) if mod else None
     hs = []
@@ -81,7 +88,7 @@ def parse_harness_file(path):
             i += 1
             continue
         h = {'harness': m.group(1), 'bound': '', 'tier': 'quick', 'complete': False, 'props': None,
-             'file': path, 'append_to': append_to, 'module': modname}
+             'file': path, 'append_to': append_to, 'module': modname, 'debug_assertions': debug_assertions}
         i += 1
         while i < len(lines):
             m2 = re.match(r'\s*//\s*@(\w+):\s*(.*?)\s*$', lines[i])
@@ -198,8 +205,9 @@ def verdict(section):
     if re.search(r'VERIFICATION:-\s*SUCCESSFUL', section):
         # vacuity guard: kani::cover!() statements, if any, must be satisfied
         unsat = re.findall(r'Status:\s*(UNSATISFIABLE|UNREACHABLE)\s*\n\s*-\s*Description:\s*"?cover', section)
-        if unsat:
-            return 'undecided', 'verification succeeded but a kani::cover!() is unreachable (vacuous harness)'
+        cv = re.search(r'\*\*\s*(\d+) of (\d+) cover properties satisfied', section)
+        if unsat or (cv and cv.group(1) != cv.group(2)):
+            return 'undecided', 'verification succeeded but a kani::cover!() is not satisfiable (vacuous harness)'
         return 'ok', ''
     if re.search(r'VERIFICATION:-\s*FAILED', section):
         failed = re.findall(r'Failed Checks:\s*(.*)', section)
@@ -230,60 +238,70 @@ def run(pid, kani_units, tier='quick', seed=0, only=None):
     if not selected:
         return results
     scratch = None
-    out = ''
-    cmdtxt = ''
     setup_err = None
-    rc = None
+    runs = {}     # mode -> dict(out, rc, cmd, wall)
     try:
         scratch = make_scratch(pid)
         strip_intree_kani(scratch)
         overlay(scratch, files)
-        os.makedirs(TARGET_DIR, exist_ok=True)
         per = PER_HARNESS.get(tier, 170)
-        total = BUILD_ALLOWANCE.get(tier, 420) + per * len(selected)
-        cmd = ['timeout', '-k', '10', str(total), 'cargo', 'kani', '--no-default-features',
-               '-Z', 'function-contracts', '-Z', 'stubbing', '-Z', 'unstable-options', '--harness-timeout', '%ds' % per]
-        for h in selected:
-            cmd += ['--harness', h['harness']]
-        env = dict(os.environ)
-        env.update({'CARGO_NET_OFFLINE': 'true', 'RUSTC_WRAPPER': '', 'CARGO_TARGET_DIR': TARGET_DIR})
-        cmdtxt = 'cd <scratch copy of /repo> && CARGO_NET_OFFLINE=true RUSTC_WRAPPER= CARGO_TARGET_DIR=%s %s' % (TARGET_DIR, ' '.join(cmd))
-        p = subprocess.run(cmd, cwd=scratch, env=env, stdout=subprocess.PIPE, stderr=subprocess.STDOUT)
-        rc = p.returncode
-        out = p.stdout.decode('utf-8', 'replace')
+        for mode in ('on', 'off'):
+            hs = [h for h in selected if h['debug_assertions'] == mode]
+            if not hs:
+                continue
+            t1 = time.time()
+            tdir = TARGET_DIR if mode == 'on' else TARGET_DIR + '-nodebug'
+            os.makedirs(tdir, exist_ok=True)
+            total = BUILD_ALLOWANCE.get(tier, 420) + per * len(hs)
+            cmd = ['timeout', '-k', '10', str(total), 'cargo', 'kani', '--no-default-features',
+                   '-Z', 'function-contracts', '-Z', 'stubbing', '-Z', 'unstable-options', '--harness-timeout', '%ds' % per]
+            for h in hs:
+                cmd += ['--harness', h['harness']]
+            env = dict(os.environ)
+            env.update({'CARGO_NET_OFFLINE': 'true', 'RUSTC_WRAPPER': '', 'CARGO_TARGET_DIR': tdir})
+            envtxt = 'CARGO_NET_OFFLINE=true RUSTC_WRAPPER= CARGO_TARGET_DIR=%s' % tdir
+            if mode == 'off':
+                env['CARGO_PROFILE_DEV_DEBUG_ASSERTIONS'] = 'false'
+                envtxt = 'CARGO_PROFILE_DEV_DEBUG_ASSERTIONS=false ' + envtxt
+            p = subprocess.run(cmd, cwd=scratch, env=env, stdout=subprocess.PIPE, stderr=subprocess.STDOUT)
+            runs[mode] = {'out': p.stdout.decode('utf-8', 'replace'), 'rc': p.returncode, 'wall': time.time() - t1,
+                          'cmd': 'cd <scratch copy of /repo with the harness modules appended> && %s %s' % (envtxt, ' '.join(cmd))}
     except KaniSetupError as e:
         setup_err = str(e)
     finally:
         if scratch and os.path.isdir(scratch) and os.path.dirname(scratch) == SCRATCH_ROOT and os.path.basename(scratch).startswith('verif-kani-'):
             shutil.rmtree(scratch, ignore_errors=True)
-    wall = time.time() - t0
-    sections = split_per_harness(out)
-    compile_err = None
-    if not sections:
-        errs = re.findall(r'^(error(?:\[E\d+\])?: .*)$', out, re.M)
-        if rc == 124 or rc == 137:
-            compile_err = 'whole run hit the wall-clock limit before any harness was checked'
-        elif errs:
-            compile_err = 'scratch copy does not compile with the harness modules: ' + ' | '.join(errs[:3])
-        else:
-            compile_err = 'cargo kani produced no harness output (rc=%s): %s' % (rc, out[-300:].replace('\n', ' '))
+    for mode, rn in runs.items():
+        rn['sections'] = split_per_harness(rn['out'])
+        rn['compile_err'] = None
+        if not rn['sections']:
+            errs = re.findall(r'^(error(?:\[E\d+\])?: .*)$', rn['out'], re.M)
+            if rn['rc'] in (124, 137):
+                rn['compile_err'] = 'whole run hit the wall-clock limit before any harness was checked'
+            elif errs:
+                rn['compile_err'] = 'scratch copy does not compile with the harness modules: ' + ' | '.join(errs[:3])
+            else:
+                rn['compile_err'] = 'cargo kani produced no harness output (rc=%s): %s' % (rn['rc'], rn['out'][-300:].replace('\n', ' '))
     for h in selected:
         base = h['harness'] in baseline_of(h['kunit'])
-        d = {'harness': h['harness'], 'kunit': h['kunit'], 'cmd': cmdtxt, 'counts_as_proof': bool(h['complete']),
+        rn = runs.get(h['debug_assertions'])
+        d = {'harness': h['harness'], 'kunit': h['kunit'], 'cmd': rn['cmd'] if rn else '', 'counts_as_proof': bool(h['complete']),
              'baseline': base, 'bound': h['bound'] or ('none (loop-free, full input domain)' if h['complete'] else 'unspecified'),
-             'tier': h['tier'], 'append_to': h['append_to'], 'dropped': DROP_NOTE, 'wall_s': round(wall, 2)}
-        if setup_err:
-            d.update(status='undecided', reason='setup: ' + setup_err, output='')
-        elif compile_err:
-            d.update(status='undecided', reason=compile_err, output=out[-4000:])
+             'tier': h['tier'], 'append_to': h['append_to'], 'dropped': DROP_NOTE,
+             'debug_assertions': 'on' if h['debug_assertions'] == 'on' else 'off (release semantics: debug-only code absent, as rule N2 of the Verus leg)',
+             'wall_s': round(rn['wall'], 2) if rn else round(time.time() - t0, 2)}
+        if setup_err or rn is None:
+            d.update(status='undecided', reason='setup: ' + (setup_err or 'not run'), output='')
+        elif rn['compile_err']:
+            d.update(status='undecided', reason=rn['compile_err'], output=rn['out'][-4000:])
         else:
             sec = None
-            for q, s in sections.items():
+            for q, sct in rn['sections'].items():
                 if q == h['harness'] or q.endswith('::' + h['harness']):
-                    sec = s
+                    sec = sct
                     break
             if sec is None:
-                d.update(status='undecided', reason='harness was not run (not found by cargo kani, or the run stopped before it)', output=out[-2000:])
+                d.update(status='undecided', reason='harness was not run (not found by cargo kani, or the run stopped before it)', output=rn['out'][-2000:])
             else:
                 st, why = verdict(sec)
                 mt = re.search(r'Verification Time:\s*([0-9.]+)s', sec)
@@ -327,8 +345,9 @@ def main(argv):
         if a.v and r['status'] not in ('ok', 'skipped'):
             print(r['output'][-3000:])
     if res:
-        print('cmd:', res[0]['cmd'])
-        print('wall: %.1fs' % max(r['wall_s'] for r in res))
+        for c in sorted(set(r['cmd'] for r in res)):
+            print('cmd:', c)
+        print('wall (per cargo kani invocation): %s' % sorted(set(r['wall_s'] for r in res)))
     return 0
 
 
